@@ -36,7 +36,7 @@ theorem dict_perm (n : Nat) (first : Bool) {l₁ l₂ : List (Str × Str)} (h : 
 
 /-- OBLIGATION (regenerated): no function of package jen writes a package-level variable — there
     is no other incidental state -/
-theorem no_global_writes : Gen.globalWrites = [] := by decide
+theorem no_global_writes : Gen.globalWrites = [] ∧ Gen.globalSuspicious = [] := by decide
 
 theorem dictPairsP_perm (cfg : Cfg) (e : Code.Env) {ps₁ ps₂ : List (Code × Code)} (h : ps₁.Perm ps₂) :
     (Code.dictPairsP cfg e ps₁).Perm (Code.dictPairsP cfg e ps₂) := by
